@@ -2,7 +2,7 @@
    Statements only; proofs in Gen/ConfigThm.v, ConfigThm2.v, ConfigThmAlias.v.  The leaf rule
    (DefaultValue.assign_to_if_not_default), the body of deep_update, cpp _validate_language_options,
    the cpp option groups and the CLI wiring are regenerated from /repo into Generated/Gen_C13.v. *)
-From Verif Require Import Config ConfigAlias ConfigThm ConfigThm2 ConfigThm3 ConfigThmAlias.
+From Verif Require Import Config ConfigAlias ConfigThm ConfigThm2 ConfigThm3 ConfigThm4 ConfigThmProc ConfigThmAlias.
 Require Import List Bool.
 Import ListNotations.
 Open Scope N_scope.
@@ -116,6 +116,53 @@ Theorem c13_explicit_override_wins : forall s name over opts k a,
 Proof. exact explicit_override_wins. Qed.
 Print Assumptions c13_explicit_override_wins.
 
+(* END-TO-END chain: for every sequence of builder calls, create() = deep_update folded over
+   built-in, file_1 .. file_n (in the order added), and last the override map *)
+Theorem c13_end_to_end_chain : forall builtin ops s',
+  bcreate (fold_left bapply ops (new_builder builtin)) = Some s' ->
+  exists l, resolve_language (canonical_builder builtin (files_of ops) (overrides_of ops []) (language_of ops None)) = Some l
+            /\ Node s' = du_all (Node builtin) (files_of ops ++ [override_doc l (overrides_of ops [])]).
+Proof. exact end_to_end_chain. Qed.
+Print Assumptions c13_end_to_end_chain.
+
+(* ... hence one precedence for every key path: built-in < file_1 < .. < file_n < overrides, as the fold of `pick`
+   (later explicit wins; a DefaultValue never displaces an explicit value; a later default replaces an earlier default) *)
+Theorem c13_end_to_end_precedence : forall builtin ops s' p,
+  bcreate (fold_left bapply ops (new_builder builtin)) = Some s' ->
+  p <> [] ->
+  Forall (fun d => is_doc d = true) (files_of ops) -> wf (Node (overrides_of ops [])) = true ->
+  leafy_on p (Node builtin) = true -> Forall (fun d => leafy_on p d = true) (files_of ops) ->
+  (forall l, leafy_on p (override_doc l (overrides_of ops [])) = true) ->
+  exists l,
+    lookup p (Node s') =
+    pick (fold_left pick (map (lookup p) (files_of ops)) (lookup p (Node builtin)))
+         (lookup p (override_doc l (overrides_of ops []))).
+Proof. exact end_to_end_precedence. Qed.
+Print Assumptions c13_end_to_end_precedence.
+
+Theorem c13_merge_files_is_du_all : forall files b s,
+  merge_files (Some b) files = Some s -> Node s = du_all (Node b) files.
+Proof. exact merge_files_is_du_all. Qed.
+Print Assumptions c13_merge_files_is_du_all.
+
+(* EFFECTIVE option = what Language.get_option / `options.k` in a template is after Language.__init__, for every key:
+   the merged value of the chain above, EXCEPT (cpp) the keys of the group selected by the merged `std`, which take the
+   group's value whatever any source said explicitly, and (py) enable_serialization_asserts, forced to True.
+   So c13_last_explicit_wins & co. describe the effective value exactly for the keys outside these exceptions. *)
+Theorem c13_effective_option : forall lk sections sec opts,
+  fst (language_init lk sections sec) = Some opts ->
+  (forall g, selected_group sections sec = Some g -> dnodup g = true) ->
+  forall k, dget k opts = effective_option lk sections sec k.
+Proof. exact effective_option_after_init. Qed.
+Print Assumptions c13_effective_option.
+
+Theorem c13_effective_option_is_chain_or_exception : forall lk sections sec k,
+  effective_option lk sections sec k = lookup [sec; key_options; k] (Node sections)
+  \/ (lk = LkCpp /\ exists g v, selected_group sections sec = Some g /\ dget k g = Some v /\ effective_option lk sections sec k = Some v)
+  \/ (lk = LkPy /\ k = key_esa /\ effective_option lk sections sec k = Some (Leaf false (ABool true))).
+Proof. exact effective_option_is_chain_or_exception. Qed.
+Print Assumptions c13_effective_option_is_chain_or_exception.
+
 (* cpp: the translated _validate_language_options applies the group selected by `std` as a unit *)
 Theorem c13_cpp_std_shorthand_unit : forall defaults options options' stdv std g,
   dget cpp_key_std options = Some stdv -> cv_str stdv = Some std ->
@@ -144,41 +191,34 @@ Theorem c13_ownership_model_is_du : forall deep s t, erase (tdu deep t s) = du (
 Proof. exact tdu_erase. Qed.
 Print Assumptions c13_ownership_model_is_du.
 
-(* documentation of the repaired defect F-CFG-ALIAS: with the shallow copy.copy the statement is false *)
-Theorem c13_sources_unmodified_shallow_refuted :
-  exists base srcs, is_doc base = true /\ forallb is_doc srcs = true /\ sources_modified false base srcs = true.
-Proof. exact shallow_copy_modifies_source. Qed.
-Print Assumptions c13_sources_unmodified_shallow_refuted.
+(* contexts.  LanguageConfig objects have identity (heap locations); builders and contexts hold locations.
+   Obligation on the code as it is NOW (regenerated from the shape of create()/_detached_builder): create() gives the new
+   context a fresh deep copy.  A regression to sharing the builder's object makes this `reflexivity` fail. *)
+Theorem c13_create_detaches_config : create_detaches_config = true.
+Proof. reflexivity. Qed.
+Print Assumptions c13_create_detaches_config.
 
-(* contexts: untouched by anything done with other builders (whatever create() does with the configuration) *)
-Theorem c13_earlier_context_stable : forall detach builtin ops p c,
-  ops_spare_ctx p c ops = true ->
-  ctx_report (prun detach builtin ops p) c = ctx_report p c.
-Proof. exact earlier_context_stable. Qed.
-Print Assumptions c13_earlier_context_stable.
+(* NON-INTERFERENCE for every history of the process: nothing but the context's own lazy construction of its non-target
+   languages changes what an existing context reports -- not other builders, not the same builder, not further create()s,
+   not other contexts.  (Stated with the regenerated flag: does not type-check unless the flag is `true`.) *)
+Theorem c13_context_noninterference : forall builtin ops1 ops2 c,
+  (c < length (p_ctxs (prun create_detaches_config builtin ops1 empty_proc)))%nat ->
+  forallb (fun o => negb (pop_observes c o)) ops2 = true ->
+  ctx_report (prun create_detaches_config builtin ops2 (prun create_detaches_config builtin ops1 empty_proc)) c
+  = ctx_report (prun create_detaches_config builtin ops1 empty_proc) c.
+Proof. exact context_noninterference_from_start. Qed.
+Print Assumptions c13_context_noninterference.
 
-(* if create() hands the context its own deep copy: stable under EVERYTHING done later, the same builder included *)
-Theorem c13_context_stable_when_detached : forall builtin ops1 ops2 c,
-  (c < length (p_ctxs (prun true builtin ops1 empty_proc)))%nat ->
-  ctx_report (prun true builtin ops2 (prun true builtin ops1 empty_proc)) c = ctx_report (prun true builtin ops1 empty_proc) c.
-Proof. exact context_stable_when_detached. Qed.
-Print Assumptions c13_context_stable_when_detached.
+(* the invariant behind it: no context holds a builder's LanguageConfig object, no two contexts hold the same object *)
+Theorem c13_separation_invariant : forall builtin ops, sep (prun create_detaches_config builtin ops empty_proc).
+Proof. intros. apply prun_sep, sep_empty. Qed.
+Print Assumptions c13_separation_invariant.
 
-(* if the context shares the builder's LanguageConfig (pinned tree, F-CFG-REUSE): refuted for a re-used builder *)
-Theorem c13_builder_reuse_refuted :
-  exists builtin ops1 ops2 c,
-    (c < length (p_ctxs (prun false builtin ops1 empty_proc)))%nat /\
-    ctx_report (prun false builtin ops2 (prun false builtin ops1 empty_proc)) c <> ctx_report (prun false builtin ops1 empty_proc) c.
-Proof. exact builder_reuse_refuted. Qed.
-Print Assumptions c13_builder_reuse_refuted.
-
-(* which of the two holds of the code as it is NOW: the flag is regenerated from LanguageContextBuilder.create *)
-Theorem c13_context_stability_live : context_stability_statement create_detaches_config.
-Proof. exact (context_stability_all create_detaches_config). Qed.
-Print Assumptions c13_context_stability_live.
-
-(* getters of LanguageConfig (shapes pinned from the source): what they return for each documented value form *)
-Theorem c13_as_bool_truth_table : forall sections section k dflt,
+(* getters of LanguageConfig: _get_config_value_raw (@no_default_value), get_config_value, get_config_value_as_bool,
+   get_config_value_as_dict and get_config_value_as_list are TRANSLATED from the source (Gen_C13.LanguageConfig_...);
+   Config.config_value* are typed views of the translated functions.  What they return, for every configuration whose
+   sections are mappings, every section, key and default: *)
+Theorem c13_as_bool_truth_table : forall sections section k dflt, section_ok sections section = true ->
   config_value_as_bool sections section k dflt =
   match config_lookup sections section k with
   | None => CfgOk dflt
@@ -188,7 +228,7 @@ Theorem c13_as_bool_truth_table : forall sections section k dflt,
 Proof. exact as_bool_truth_table. Qed.
 Print Assumptions c13_as_bool_truth_table.
 
-Theorem c13_config_value_spec : forall sections section k dflt,
+Theorem c13_config_value_spec : forall sections section k dflt, section_ok sections section = true ->
   config_value sections section k dflt =
   match config_lookup sections section k with
   | None => match dflt with Some d => CfgOk d | None => CfgKeyError end
@@ -199,7 +239,7 @@ Theorem c13_config_value_spec : forall sections section k dflt,
 Proof. exact config_value_spec. Qed.
 Print Assumptions c13_config_value_spec.
 
-Theorem c13_config_value_as_dict_spec : forall sections section k dflt,
+Theorem c13_config_value_as_dict_spec : forall sections section k dflt, section_ok sections section = true ->
   config_value_as_dict sections section k dflt =
   match config_lookup sections section k with
   | Some (Node m) => CfgOk m
@@ -208,6 +248,27 @@ Theorem c13_config_value_as_dict_spec : forall sections section k dflt,
   end.
 Proof. exact config_value_as_dict_spec. Qed.
 Print Assumptions c13_config_value_as_dict_spec.
+
+Theorem c13_config_value_as_list_spec : forall sections section k dflt, section_ok sections section = true ->
+  config_value_as_list sections section k dflt =
+  match config_lookup sections section k with
+  | Some (Leaf _ (AList i)) => CfgOk i
+  | Some _ => match dflt with Some d => CfgOk d | None => CfgTypeError end
+  | None => match dflt with Some d => CfgOk d | None => CfgKeyError end
+  end.
+Proof. exact config_value_as_list_spec. Qed.
+Print Assumptions c13_config_value_as_list_spec.
+
+(* the raw getter under @no_default_value: the stored entry without its DefaultValue wrapper; the default (also unwrapped)
+   only when the section or the key is missing; KeyError when it is _UNSET *)
+Theorem c13_raw_getter_spec : forall sections section k d, section_ok sections section = true ->
+  LanguageConfig__get_config_value_raw sections (pv_str section) (pv_str k) d =
+  match config_lookup sections section k with
+  | Some v => CfgOk (PV (unwrap_default v))
+  | None => match d with PUnset => CfgKeyError | PV x => CfgOk (PV (unwrap_default x)) end
+  end.
+Proof. exact raw_spec. Qed.
+Print Assumptions c13_raw_getter_spec.
 
 (* ---- non-vacuity: the hypotheses are satisfiable and the conclusions discriminate ---------------- *)
 Definition ex_base : cv := Node [([97], Leaf true (AInt 1)); ([98], Leaf false (AInt 2)); ([110], Node [([120], Leaf false (AInt 0))])].
@@ -224,8 +285,11 @@ Proof. vm_compute. auto. Qed.
 Example c13_ex_hypotheses_hold :
   is_mapping ex_base = true /\ forallb is_doc [ex_s1; ex_s2] = true
   /\ leafy_on [[97]] ex_base = true /\ forallb (leafy_on [[97]]) [ex_s1; ex_s2] = true
-  /\ untouched [[110]; [120]] ex_s2 = true /\ untouched [[110]; [120]] ex_s1 = true.
-Proof. vm_compute. auto 10. Qed.
+  /\ untouched [[110]; [120]] ex_s2 = true /\ untouched [[110]; [120]] ex_s1 = true
+  /\ leafy_on [[110]; [121]] ex_base = true /\ forallb (leafy_on [[110]; [121]]) [ex_s1; ex_s2] = true     (* a nested path *)
+  /\ lookup [[110]; [121]] (du_all ex_base [ex_s1; ex_s2])
+     = fold_left pick (map (lookup [[110]; [121]]) [ex_s1; ex_s2]) (lookup [[110]; [121]] ex_base).
+Proof. vm_compute. auto 12. Qed.
 
 Example c13_ex_shape_conflicts :   (* mapping replaces leaf; explicit leaf replaces mapping; default leaf does not *)
   du (Node [([97], Leaf false (AInt 1))]) (Node [([97], Node [([120], Leaf false (AInt 2))])]) = Node [([97], Node [([120], Leaf false (AInt 2))])]
@@ -259,3 +323,14 @@ Example c13_ex_bool_table :   (* true, "False", "FALSE", "0", 0, "", None, "no" 
   /\ config_value_as_bool [([115], Node [([107], Leaf true (ABool true))])] [115] [107] false = CfgOk true
   /\ config_value [([115], Node [([107], Leaf false (AInt (-305)))])] [115] [107] None = CfgOk [45; 51; 48; 53].
 Proof. vm_compute. auto. Qed.
+
+Example c13_ex_effective_option :   (* file says std: c++17-pmr and allocator_type: mine -> the group value is effective *)
+  let sec := section_of [99; 112; 112] in
+  let sections := [(sec, Node [(key_options, Node (dset cpp_key_alloc (Leaf false (AStr [109]))
+                                                   (dset cpp_key_std (Leaf false (AStr [99; 43; 43; 49; 55; 45; 112; 109; 114])) cpp_builtin_options)));
+                               (key_defaults, Node builtin_defaults)])] in
+  effective_option LkCpp sections sec cpp_key_alloc <> merged_option sections sec cpp_key_alloc
+  /\ merged_option sections sec cpp_key_alloc = Some (Leaf false (AStr [109]))
+  /\ effective_option LkCpp sections sec [99; 97; 115; 116; 95; 102; 111; 114; 109; 97; 116]
+     = merged_option sections sec [99; 97; 115; 116; 95; 102; 111; 114; 109; 97; 116].
+Proof. vm_compute. repeat split; congruence. Qed.
